@@ -1007,8 +1007,8 @@ impl SubRule {
         }
 
         if match_begin.is_none() && states.len() == 1 {
-            // the whole context is a single boundary (or structure): the end of the word is one
-            if let ParseElement::WordBound | ParseElement::SyllBound | ParseElement::Structure(..) = states.first().unwrap().kind {
+            // the whole context is a single boundary: the end of the word is one
+            if let ParseElement::WordBound | ParseElement::SyllBound = states.first().unwrap().kind {
                 let sy = word.syllables.len() - 1;
                 let sg = word.syllables[sy].segments.len();
                 Ok(Some(SegPos::new(sy, sg)))
